@@ -3,7 +3,7 @@ from __future__ import annotations
 
 import ast
 import re
-from typing import List, Optional, Set, Tuple
+from typing import Dict, List, Optional, Set, Tuple
 
 from .core import AnalysisError, Report
 from .grammar import (GNode, Grammar, cycles_with_or, first_terms, left_recursive_forwards,
@@ -477,3 +477,123 @@ def rule_free_text_bounded(ctx, rep: Report, rid="V7"):
                     "an unstructured scan (SkipTo / Regex / restOfLine) over declaration text accepts whatever it skips", loc)
     if n < 8:
         raise AnalysisError(f"{rep.prop}/{rid}: only {n} free-text token classes found in the grammar (8 expected)")
+
+
+# ------------------------------------------------------------------------------------------
+# word boundary of word-like literals
+_IDENT = set("abcdefghijklmnopqrstuvwxyzABCDEFGHIJKLMNOPQRSTUVWXYZ0123456789_")
+
+
+def _first_nodes(n: GNode, _seen=None) -> List[GNode]:
+    """Terminal nodes that can start a match of n."""
+    from .grammar import nullable
+    _seen = _seen if _seen is not None else set()
+    if n.uid in _seen:
+        return []
+    _seen = _seen | {n.uid}
+    if not n.children or n.kind in ("Literal", "Keyword", "Word", "CharsNotIn", "QuotedString", "NestedExpr", "Comment", "StringEnd"):
+        return [n]
+    if n.kind == "And":
+        out = []
+        for c in n.children:
+            out += _first_nodes(c, _seen)
+            if not nullable(c):
+                break
+        return out
+    out = []
+    for c in n.children:
+        out += _first_nodes(c, _seen)
+    return out
+
+
+def _follow_nodes(g: Grammar, root: GNode, target: GNode) -> List[GNode]:
+    """Terminal nodes that can directly follow a match of `target` somewhere in the grammar under root."""
+    from .grammar import nullable
+    nodes = g.reachable(root)
+    parents: Dict[int, List[Tuple[GNode, int]]] = {}
+    for p in nodes:
+        for i, c in enumerate(p.children):
+            parents.setdefault(c.uid, []).append((p, i))
+        d = p.attrs.get("delim_node")
+        if isinstance(d, GNode):
+            parents.setdefault(d.uid, []).append((p, -1))
+    out: List[GNode] = []
+    seen = set()
+
+    def follow(x: GNode):
+        if x.uid in seen:
+            return
+        seen.add(x.uid)
+        for p, i in parents.get(x.uid, []):
+            k = p.kind
+            if k == "And":
+                rest = p.children[i + 1:]
+                done = False
+                for c in rest:
+                    out.extend(_first_nodes(c))
+                    if not nullable(c):
+                        done = True
+                        break
+                if not done:
+                    follow(p)
+            elif k in ("ZeroOrMore", "OneOrMore"):
+                out.extend(_first_nodes(x))
+                follow(p)
+            elif k == "DelimitedList":
+                d = p.attrs.get("delim_node")
+                if i == -1:
+                    out.extend(_first_nodes(p.children[0]))
+                else:
+                    if isinstance(d, GNode):
+                        out.extend(_first_nodes(d))
+                    follow(p)
+            else:
+                follow(p)
+    follow(target)
+    return out
+
+
+def _can_start_with_ident_char(t: GNode) -> bool:
+    if t.kind in ("Literal", "Keyword"):
+        return bool(t.text) and t.text[0] in _IDENT
+    if t.kind == "Word":
+        a = t.attrs.get("args", [])
+        init = a[0] if a and isinstance(a[0], str) and a[0] != "<expr>" else None
+        if init is None:
+            return True
+        excl = t.attrs.get("excludeChars") or ""
+        return bool((set(init) - set(excl if isinstance(excl, str) else "")) & _IDENT)
+    if t.kind == "CharsNotIn":
+        a = t.attrs.get("args", [])
+        return not (a and isinstance(a[0], str) and _IDENT <= set(a[0]))
+    return False
+
+
+def rule_word_boundary(ctx, rep: Report, rid="G9"):
+    """A terminal spelt like a word (`class`, `struct`, `std` ...) either is a Keyword (pyparsing then refuses
+    to match it inside a longer identifier) or can only be followed by punctuation.  A plain Literal / oneOf
+    alternative in front of an identifier position eats the identifier's first letters: `enum classification`
+    is accepted and yields an enum named `ification`."""
+    g = ctx.grammar
+    root, _ = parse_root(ctx)
+    n = 0
+    done = set()
+    for node in sorted(g.reachable(root), key=lambda x: (x.src, x.uid)):
+        if node.kind not in ("Literal", "Keyword") or not node.text or node.text[-1] not in _IDENT or not any(c.isalnum() for c in node.text):
+            continue
+        key = (node.kind, node.text, node.src)
+        n += 1
+        if node.kind == "Keyword":
+            if key not in done:
+                rep.add(rid, f"word-boundary:{node.text!r}@{ctx_label(g, node)}:Keyword", True, "Keyword: not matched inside a longer identifier",
+                        f"{node.src[0]}:{node.src[1]}", nontrivial=False)
+            done.add(key)
+            continue
+        fol = [t for t in _follow_nodes(g, root, node) if _can_start_with_ident_char(t)]
+        rep.add(rid, f"word-boundary:{node.text!r}@{ctx_label(g, node)}:only punctuation can follow this plain literal", not fol,
+                f"Literal({node.text!r}) has no word boundary and can be followed directly by "
+                f"{sorted({t.describe() for t in fol})[:4]}: an identifier that merely starts with {node.text!r} is split, the "
+                f"literal takes the prefix and the rest becomes the name (`enum classification {{...}}` -> enum `ification`)",
+                f"{node.src[0]}:{node.src[1]}")
+    if n < 15:
+        raise AnalysisError(f"{rep.prop}/{rid}: only {n} word-like terminals found (15+ expected)")
